@@ -73,6 +73,12 @@ def judge_auto(qr, acc, case):
     fv, fl, fm, fw = C.D.read_format(qr.matrix)
     if fm != qr.mask:
         acc.violation('format-mask', 'QRCode.mask=%r but the format information carries %r' % (qr.mask, fm), case)
+    if T.is_micro(v) or v <= 2:
+        rep = C.read(qr, parse=False)
+        acc.count('auto_decoded')
+        if not rep.syndromes_ok:
+            acc.violation('announced-mask-not-applied', '%s: unmasking with the announced mask %r does not give valid RS blocks (another mask was applied?)'
+                          % (qr.designator, qr.mask), case)
     if qr.mask not in res['best']:
         acc.violation('not-optimal/%s' % ('micro' if T.is_micro(v) else 'qr'),
                       'mask %r chosen for %s; scores %r -> lowest-numbered optimum is %r' % (qr.mask, qr.designator, res['totals'], sorted(res['best'])),
